@@ -251,6 +251,10 @@ def run(model, col, tier):
             continue
         ctxn = h.args.args[2].arg
         rejecting, accepting = [], []
+        # a shared private helper (`self.__RequireEnclosingLoop(ctx, <error>)`) is read in place
+        from ..sem import expand_helpers as _xh113
+
+        h = _xh113(model, vis, h)
         for evs, status in paths(h.body):
             conds = [(" ".join(unparse(e.node).split()), e.val) for e in evs if e.kind == "cond"]
             clears = any(e.kind == "stmt" and isinstance(e.node, ast.Assign) and isinstance(e.node.targets[0], ast.Attribute)
